@@ -4,7 +4,7 @@ from __future__ import annotations
 import ast
 import itertools
 
-from ..absval import Undecided, eval_function, linform, Lin
+from ..absval import Undecided, eval_function, linform, Lin, module_constants
 from ..core import (AnalysisError, call_name, dotted, is_const, kwarg, local_defs, norm, origin,
                     parent_map, walk_local, arg)
 from ..facts import (default_of, guards_of, list_literal_strs, mentions, recv_calls, returns_of,
@@ -56,10 +56,11 @@ def predicate(rep):
     if len(p) != 3:
         raise AnalysisError("_should_include_edge signature changed")
     bad, table, und = [], 0, None
+    consts = module_constants(fi.module.tree)
     for std, mtg, keep in itertools.product(STD_POINTS, (False, True), (False, True)):
         spec = (isinstance(std, (int, float)) and std != 0) or (keep and mtg)
         try:
-            got = bool(eval_function(fi.node, {p[0]: std, p[1]: mtg, p[2]: keep}))
+            got = bool(eval_function(fi.node, dict(consts, **{p[0]: std, p[1]: mtg, p[2]: keep})))
         except Undecided as exc:
             und = str(exc)
             break
